@@ -3,6 +3,7 @@ import datetime
 import os
 import random
 import re
+import zipfile
 import zoneinfo
 
 from .. import model, runner
@@ -107,6 +108,22 @@ def run_job(job):
                 if ns % 1_000_000_000:
                     res.count("mtimes_with_subsecond_part")
             littext = model.quote_lit(lit) if quoted else lit
+            # the same grid as stored times of zip members (local wall-clock time, two-second resolution, from 1980 on):
+            # a member is an entry with a time like any other
+            zfiles = {}
+            if rng.random() < 0.3:
+                zd = os.path.join(w, "z%d" % li)
+                os.mkdir(zd)
+                with zipfile.ZipFile(os.path.join(zd, "pack.zip"), "w") as z:
+                    for i, o in enumerate(sorted(offsets)):
+                        if 1981 <= o.year <= 2037 and o.second % 2 == 0:
+                            o = o.replace(microsecond=0)
+                            zi = zipfile.ZipInfo("m%02d" % i, (o.year, o.month, o.day, o.hour, o.minute, o.second))
+                            zi.external_attr = (0o100644) << 16
+                            zi.create_system = 3
+                            z.writestr(zi, b"")
+                            zfiles["[pack.zip] m%02d" % i] = o
+                os.utime(os.path.join(zd, "pack.zip"), (86400 * 365 * 5, 86400 * 365 * 5))
             per_op = {}
             for op in OPS:
                 spelled = rng.choice(ALIASES[op])
@@ -152,6 +169,27 @@ def run_job(job):
                         res.viol("`modified` printed %r for mtime %s (TZ=%s)" % (m, model.fmt_dt(files[n]), tz), ctx)
                         bad = True
                         break
+                if not bad and zfiles and rng.random() < 0.4:
+                    qz = "name, modified from z%d archives where modified %s %s into list" % (li, spelled, littext)
+                    rz = runner.run([qz], cwd=w, home=home, tz=tz, fake_epoch=fake)
+                    res.ev()
+                    if rz.verdict == "ok":
+                        ctxz = {"query": qz, "tz": tz, "members": {k: model.fmt_dt(v) for k, v in zfiles.items()}, "result": rz.brief()}
+                        try:
+                            zrows = [(n, m) for n, m in rz.rows(2) if n.startswith("[")] if rz.rc == 0 and not rz.err else None
+                        except ValueError:
+                            zrows = None
+                        zexp = set(n for n, t_ in zfiles.items() if model.date_cmp(op, t_, a, b))
+                        if zrows is None or set(n for n, _m in zrows) != zexp:
+                            res.viol("zip members, `modified %s %s` (TZ=%s): returned %s, expected %s (status %s, stderr %r)" % (
+                                spelled, littext, tz, sorted(n for n, _m in zrows or [])[:4], sorted(zexp)[:4], rz.rc, rz.err[:100]), ctxz)
+                            bad = True
+                        elif any(m != model.fmt_dt(zfiles[n]) for n, m in zrows):
+                            res.viol("zip members: `modified` printed %s for stored times %s (TZ=%s)" % (
+                                [m for n, m in zrows][:3], [model.fmt_dt(zfiles[n]) for n, m in zrows][:3], tz), ctxz)
+                            bad = True
+                        else:
+                            res.count("zip_member_times_compared", len(zfiles))
                 if not bad:
                     per_op[op] = got
                     res.cover("op_prec", "%s %s" % (op, prec))
